@@ -13,6 +13,11 @@ class ObserverError(Exception):
     pass
 
 
+class MalformedLibraryValue(Exception):
+    """The library returned an internally inconsistent object (e.g. a ragged array whose flat data size differs
+    from the sum of its row lengths).  This is an observation about bionumpy, not an observer failure."""
+
+
 def _np_scalar(v):
     if isinstance(v, (np.bool_, bool)):
         return bool(v)
@@ -40,7 +45,7 @@ def _split(flat, lengths):
         out.append(flat[pos:pos + l])
         pos += l
     if pos != len(flat):
-        raise ObserverError('ragged flat size %d != sum(lengths) %d' % (len(flat), pos))
+        raise MalformedLibraryValue('ragged flat size %d != sum(lengths) %d' % (len(flat), pos))
     return out
 
 
